@@ -41,7 +41,6 @@ run C18-m1 C18 C01
 run C18-m2 C18
 # round 2: changes designed to escape short random histories over small alphabets
 run C01-r2m1 C01 C06
-run C01-r2m2 C01 C08
 run C02-r2m1 C02 C06
 run C02-r2m2 C02 C04
 run C03-r2m1 C03 C05
@@ -132,7 +131,6 @@ run C08-r4m1 C08
 run C08-r4m2 C08
 run C09-r4m2 C09
 run C10-r4m1 C10 C07
-run C10-r4m2 C10 C01
 run C11-r4m1 C11
 run C11-r4m2 C11
 run C12-r4m1 C12
